@@ -365,7 +365,7 @@ fn record_trace(scn: &str, params: &str) {
     for (name, ev) in [("scan-done", "D-scan-done"), ("critical-section-end", "D-done")] {
         if let Some(p) = pos(ev) {
             // the last main-thread event before it
-            let before = t[..p].iter().rev().find(|x| !x.starts_with("D-")).copied().unwrap_or("spawn");
+            let before = t[..p].iter().rev().find(|x| !x.starts_with("D-") && !x.starts_with("W-")).copied().unwrap_or("spawn");
             let cls = match before {
                 "spawn" => "before-publication-and-queries".to_string(),
                 "K-start" => "during-publication".to_string(),
@@ -376,6 +376,11 @@ fn record_trace(scn: &str, params: &str) {
             };
             classes.push(format!("{}.{}.{}", scn, name, cls));
         }
+    }
+    // fault kind: wake-ups without a publication (the hook's condition variable)
+    let spurious = t.iter().filter(|x| **x == "W-spurious-notify").count() as u64;
+    if spurious > 0 {
+        classes.push(format!("{}.fault.spurious-wakeup-notifications", scn));
     }
     let h = fnv64(format!("{}|{:?}", params, t).as_bytes());
     with_stats(|st| {
@@ -890,7 +895,7 @@ fn master(tier: &str, seed: u64) -> i32 {
     }
     // reach: every event-order class must have been hit, else the batch is insufficient
     if exit == 0 {
-        for need in ["S1.scan-done.before-publication-and-queries", "S1.scan-done.between-publication-and-first-query", "S1.scan-done.while-a-query-is-running-or-waiting", "S1.scan-done.between-or-after-queries", "S1.critical-section-end.while-a-query-is-running-or-waiting", "S2.scan-done.while-a-query-is-running-or-waiting"] {
+        for need in ["S1.scan-done.before-publication-and-queries", "S1.scan-done.between-publication-and-first-query", "S1.scan-done.while-a-query-is-running-or-waiting", "S1.scan-done.between-or-after-queries", "S1.critical-section-end.while-a-query-is-running-or-waiting", "S2.scan-done.while-a-query-is-running-or-waiting", "S1.fault.spurious-wakeup-notifications"] {
             if classes.get(need).copied().unwrap_or(0) == 0 {
                 eprintln!("HARNESS-ERROR: event-order class {} never reached", need);
                 exit = 2;
